@@ -243,6 +243,20 @@ Section Access.
   Definition ldq (b:buf) (q:N) : N := run H KBeToCpu W32 (host_ld E 4 b (4 * q)).
   Definition stq (b:buf) (q:N) (v:N) : buf := host_st E 4 b (4 * q) (run H KCpuToBe W32 (v mod 2^32)).
 
+  (* ---- typed 16/32/64-bit accesses at a byte address (VSS codec) ---- *)
+  Definition ldw (w:hwidth) (b:buf) (a:N) : N := run H KBeToCpu w (host_ld E (wbytes w) b a).
+  Definition stw (w:hwidth) (b:buf) (a:N) (v:N) : buf :=
+    host_st E (wbytes w) b a (run H KCpuToBe w (v mod 2^(N.of_nat (wbits w)))).
+  Theorem ldw_wire w b a : ldw w b a = be_of (slice b a (wbytes w)).
+  Proof. unfold ldw, host_ld. apply (be_to_cpu_value w); [apply length_slice|apply normal_slice]. Qed.
+  Theorem stw_wire w b a v : stw w b a v = upd b a (be_bytes (wbytes w) v).
+  Proof.
+    unfold stw, host_st. f_equal.
+    rewrite (cpu_to_be_image w) by (apply N.mod_lt; apply N.pow_nonzero; lia).
+    unfold be_bytes. f_equal. rewrite wbits_bytes.
+    replace (N.of_nat (8 * wbytes w)) with (8 * N.of_nat (wbytes w)) by lia. apply le_bytes_mod.
+  Qed.
+
   Theorem ldq_wire b q : ldq b q = ldq_be b q.
   Proof.
     unfold ldq, host_ld, ldq_be. apply (be_to_cpu_value W32); [apply length_slice|apply normal_slice].
